@@ -85,6 +85,7 @@ fn issuer_history(ctx: &Ctx, case: u64, l: &mut Local) {
     let alg = ALL_ALGS[(case % 3) as usize];
     let mut issuer = api::new_issuer(alg, 0, true);
     let mut seen_strings: HashSet<String> = HashSet::new(); // disclosures and digests of earlier results
+    let mut prev_claims: Option<(Value, gen::Strategy, usize)> = None;
     let mut prev: Option<(Fmt, bool, Option<(Alg, usize)>, bool)> = None;
     let mut nontrivial = false;
     let mut fp = 0u64;
@@ -140,8 +141,21 @@ fn issuer_history(ctx: &Ctx, case: u64, l: &mut Local) {
         let mut g = GenCfg::new(profile, *r.pick(&[6, 15, 30]), api::now());
         g.safe_names = skind.is_custom();
         g.tag_prefix = format!("{k}.");
-        let u = gen::gen_claims(&mut r, &g);
-        let strat = gen::gen_strategy(&mut r, &u, skind);
+        // "independently chosen" includes choosing the same claims (and strategy) as the call before
+        // while format / decoys / holder key are drawn anew
+        let (u, strat, tag_owner) = match (&prev_claims, r.chance(25)) {
+            (Some((pu, ps, owner)), true) => {
+                l.count("issuer.calls.same-claims-as-previous");
+                (pu.clone(), ps.clone(), *owner)
+            }
+            _ => {
+                let u = gen::gen_claims(&mut r, &g);
+                let st = gen::gen_strategy(&mut r, &u, skind);
+                (u, st, k)
+            }
+        };
+        let skind = strat.kind;
+        prev_claims = Some((u.clone(), strat.clone(), tag_owner));
         let s = Scenario {
             cfg: Config {
                 profile,
@@ -195,7 +209,7 @@ fn issuer_history(ctx: &Ctx, case: u64, l: &mut Local) {
         }
         // (2) nothing from other calls
         let texts = texts_of(&issued.parts);
-        if let Some(tag) = foreign_tags(&texts, k) {
+        if let Some(tag) = foreign_tags(&texts, tag_owner) {
             l.violate(viol(case, "foreign-tag-in-result", &format!("call#{k}"), "a claim tag of another call occurs in this result".into(), json!({"input": input(), "tag": tag, "payload": issued.payload})));
         }
         let mut mine: Vec<String> = issued.parts.disclosures.clone();
